@@ -62,10 +62,18 @@ def op_tables(tier, rng):
     return out, n_exh
 
 
-def grammar_text(table, order, rule_meta=None):
+def grammar_text(table, order, rule_meta=None, inherit=None):
+    """`inherit`: (left, prio) declared on the rule; alternatives with exactly these values leave them out
+    and inherit them (those with only one of the two equal leave out that one)."""
     alts = []
     for i, (prio, left) in enumerate(table):
-        alts.append('E "%s" E {%s, %d}' % (OPS[i], "left" if left else "right", prio))
+        meta = ["left" if left else "right", str(prio)]
+        if inherit is not None:
+            if left == inherit[0]:
+                meta.remove("left" if left else "right")
+            if prio == inherit[1]:
+                meta.remove(str(prio))
+        alts.append('E "%s" E%s' % (OPS[i], (" {%s}" % ", ".join(meta)) if meta else ""))
     alts += ['"(" E ")"', '"n"']
     alts = [alts[i] for i in order]
     head = "E" if rule_meta is None else "E {%s}" % rule_meta
@@ -137,7 +145,14 @@ def run_unit(u):
         rule_meta = None
         if ti % 3 == 1:
             rule_meta = "%s, %d" % (rng.choice(["left", "right"]), rng.choice([pr for pr, _ in table] + [5]))
-        gtxt = grammar_text(table, order, rule_meta)
+        inherit = None
+        if ti % 3 == 2:
+            # the rule declares the values of one operator; that operator's alternative (and every alternative
+            # sharing a value) inherits instead of declaring: the effective table is unchanged
+            pr_i, lf_i = table[rng.randrange(k)]
+            inherit = (lf_i, pr_i)
+            rule_meta = "%s, %d" % ("left" if lf_i else "right", pr_i)
+        gtxt = grammar_text(table, order, rule_meta, inherit)
         opmap = {OPS[i]: i for i in range(k)}
         g = Grammar.from_string(gtxt)
         num = Numbering(g)
